@@ -55,13 +55,13 @@ type B struct {
 	severSilent   bool   // the cut is silent (reads hang, writes vanish: only keepalive notices)
 	handshakeFail int    // cut this many upcoming handshakes instead of answering
 	refuse        map[int]bool
-	refusedOn     map[int]int // label -> generation on which its resume was refused
+	refusedOn     map[int]int  // label -> generation on which its resume was refused
 	holdClose     map[int]bool // labels whose close responses are withheld until ReleaseClose
 	heldCloses    map[int][]func()
-	heldAcks      []func() // acknowledgements of upstream chunks withheld while NoAnswer("chunk")
-	conflictLeft  map[int]int // label -> how many more of its resume requests are answered RESUME_REQUEST_CONFLICT
-	conflictDef   int         // default for labels not yet in conflictLeft
-	conflicted    map[int]int // label -> conflict answers given so far
+	heldAcks      []func()        // acknowledgements of upstream chunks withheld while NoAnswer("chunk")
+	conflictLeft  map[int]int     // label -> how many more of its resume requests are answered RESUME_REQUEST_CONFLICT
+	conflictDef   int             // default for labels not yet in conflictLeft
+	conflicted    map[int]int     // label -> conflict answers given so far
 	noAnswer      map[string]bool // kinds never answered (pending calls / metadata)
 	DialDelay     atomic.Int64
 	DialRefuse    atomic.Int32 // refuse this many dials outright (no transport)
@@ -91,7 +91,11 @@ func New() *B {
 	return b
 }
 
-func (b *B) SeverOn(kind string)       { b.mu.Lock(); b.severOn, b.severLeft, b.severSilent = kind, 1, false; b.mu.Unlock() }
+func (b *B) SeverOn(kind string) {
+	b.mu.Lock()
+	b.severOn, b.severLeft, b.severSilent = kind, 1, false
+	b.mu.Unlock()
+}
 
 // SeverOnN cuts the link instead of answering each of the next n messages of the kind (each on the
 // incarnation it arrives on); silent: the death is noticed only by keepalive.
@@ -100,8 +104,8 @@ func (b *B) SeverOnN(kind string, n int, silent bool) {
 	b.severOn, b.severLeft, b.severSilent = kind, n, silent
 	b.mu.Unlock()
 }
-func (b *B) FailHandshakes(n int)      { b.mu.Lock(); b.handshakeFail = n; b.mu.Unlock() }
-func (b *B) RefuseResume(label int)    { b.mu.Lock(); b.refuse[label] = true; b.mu.Unlock() }
+func (b *B) FailHandshakes(n int)         { b.mu.Lock(); b.handshakeFail = n; b.mu.Unlock() }
+func (b *B) RefuseResume(label int)       { b.mu.Lock(); b.refuse[label] = true; b.mu.Unlock() }
 func (b *B) NoAnswer(kind string, v bool) { b.mu.Lock(); b.noAnswer[kind] = v; b.mu.Unlock() }
 
 // Log returns a snapshot of all labelled client messages.
